@@ -197,6 +197,8 @@ fn routes(tier: Tier, r: &mut Routes) {
     r.with(&[&[0, 0, 1]]).visit::<f64, DualVec<Dual64, f64, Const<2>>>(Dims::n(2));
     r.with(&[&[0, 0, 1, 0, 1]]).visit::<f64, Dual2Vec<Dual64, f64, Const<2>>>(Dims::n(2));
     r.with(&[&[0, 0, 1, 1, 0]]).visit::<f64, HyperDualVec<Dual64, f64, Const<2>, Const<2>>>(Dims::mn(2, 2));
+    // third order through a hyper-dual number over a dual number (inner generator 0, outer 1, 2)
+    r.with(&[&[0, 0, 0], &[1, 0, 0], &[0, 0, 1], &[1, 1, 0]]).visit::<f64, HyperDual<Dual64, f64>>(Dims::NONE);
     // fourth order through three different nestings (the inner parts of the outer level's
     // derivative coefficients are only exercised by nested types)
     r.with(&[&[0, 0, 0, 0]]).visit::<f64, Dual2<Dual2_64, f64>>(Dims::NONE);
